@@ -164,7 +164,9 @@ def eval_group(env, group, tier):
                             if o.rc != 1:
                                 emit(sub, False, 'status-not-1:' + fk, dict(o.brief(), query=q, dirs=list(combo)))
                                 continue
-                            if not all(('./' + d) in err for d in combo):
+                            # a failing directory beneath another failing directory is never reached, so it cannot be named
+                            reachable = [d for d in combo if not any(under(d, e_) for e_ in combo if e_ != d)]
+                            if not all(('./' + d) in err for d in reachable):
                                 emit(sub, False, 'failing-path-not-named:' + fk, dict(o.brief(), query=q, dirs=list(combo)))
                                 continue
                             rows = o.rows()
